@@ -5,7 +5,7 @@
    trie walk of lookup_route; [serves]/[tmatch] the declarative reading of a
    declaration (RouterSpec.v: method equal, template matches, version in
    range). *)
-From DS Require Import Base Versions VersionsProofs Router RouterSpec RouterProofs Pct PathNorm Route RouteProofs Pipeline PipelineProofs.
+From DS Require Import Base Versions VersionsProofs Router RouterSpec RouterProofs Pct PathNorm Route RouteProofs Pipeline PipelineProofs VersionsEmbed RankEmbed RouterEmbed PipelineEmbed.
 From Coq Require Import Permutation.
 
 Section C01.
@@ -104,6 +104,39 @@ Section C01.
   Proof. exact (handle_no_panic V cmp). Qed.
 End C01.
 
+(* 7. the router and the whole pipeline see versions only through comparisons
+   with range bounds and the policy's maximum: under any map of the version
+   type that preserves the comparisons involving a known version (every bound
+   known), registration of the mapped table succeeds iff registration of the
+   table does, every lookup has the corresponding outcome (same endpoint and
+   bindings, same 404, same 405 with the same Allow list), and the pipeline
+   commutes with the map.  Instance: ranking semver against a chain that holds
+   every bound — what the correspondence relies on when it carries chain
+   indices / ranks instead of semver values. *)
+Theorem C01_registration_invariant : forall V W cmpV cmpW (f : V -> W) (P : V -> Prop),
+  (forall a b, P a \/ P b -> cmpW (f a) (f b) = cmpV a b) ->
+  forall eps, known V P eps ->
+  ((exists r, build V cmpV eps = Ok r) <-> (exists r', build W cmpW (map (map_decl V W f) eps) = Ok r')).
+Proof. exact build_embed_accepts. Qed.
+
+Theorem C01_lookup_invariant : forall V W cmpV cmpW botV botW,
+  total_order V cmpV botV -> total_order W cmpW botW ->
+  forall (f : V -> W) (P : V -> Prop), (forall a b, P a \/ P b -> cmpW (f a) (f b) = cmpV a b) ->
+  forall eps r r', known V P eps -> build V cmpV eps = Ok r -> build W cmpW (map (map_decl V W f) eps) = Ok r' ->
+  forall m segs ov, version_ok V cmpV eps ov ->
+  lookup W cmpW r' m segs (option_map f ov) = map_outcome V W f (lookup V cmpV r m segs ov).
+Proof. exact lookup_embed. Qed.
+
+Theorem C01_pipeline_by_rank : forall V cmp bot, total_order V cmp bot ->
+  forall (chain : list V) (parse : str -> option V) (p : policy V) (eps : list (decl V)) r r' m rawpath h,
+  known V (fun v => In v chain) eps -> policy_known V (fun v => In v chain) p ->
+  (forall d, In d eps -> wf_range V cmp (e_versions (snd d))) ->
+  starts V p eps = true ->
+  build V cmp eps = Ok r -> build N N.compare (map (map_decl V N (rank V cmp chain)) eps) = Ok r' ->
+  handle N N.compare (fun s => option_map (rank V cmp chain) (parse s)) (map_policy V N (rank V cmp chain) p) r' m rawpath h =
+  map_handled V N (rank V cmp chain) (handle V cmp parse p r m rawpath h).
+Proof. exact handle_by_rank. Qed.
+
 (* non-vacuity: a table with siblings, a variable chain, a wildcard and three
    version ranges on one path is accepted and exercises every outcome *)
 Definition ex_ep (id m : str) (r : vrange N) : endpoint N := mkEp id m r 0 None true.
@@ -166,3 +199,6 @@ Print Assumptions C01_lookup_never_panics.
 Print Assumptions C01_route_end_to_end.
 Print Assumptions C01_pipeline_invoke_iff.
 Print Assumptions C01_pipeline_never_panics.
+Print Assumptions C01_registration_invariant.
+Print Assumptions C01_lookup_invariant.
+Print Assumptions C01_pipeline_by_rank.
